@@ -244,8 +244,81 @@ fn real_clock_case(sub: &str, id: u64, r: &mut Report) {
     }
 }
 
+/// states installed through serde (counters near their wrap, arbitrary words,
+/// read index anywhere incl. beyond the buffer), then ordinary operations
+fn crafted_case(sub: &str, id: u64, r: &mut Report) {
+    use rand_core::block::{BlockRng, BlockRng64, BlockRngCore};
+    let mut p = Prng::new(id);
+    let which = p.below(4);
+    let res = guarded(|| {
+        match which {
+            0 => {
+                let mut img = p.bytes(259 * 4);
+                let c = u32::MAX - p.below(3) as u32;
+                img[258 * 4..].copy_from_slice(&c.to_le_bytes());
+                let mut core: rand_isaac::isaac::IsaacCore = bincode::deserialize(&img).unwrap();
+                let mut out = <rand_isaac::isaac::IsaacCore as BlockRngCore>::Results::default();
+                for _ in 0..5 { core.generate(&mut out); }
+                let mut w = BlockRng::new(core);
+                for _ in 0..600 { w.next_u32(); }
+                w.next_u64();
+                let mut b = vec![0u8; 3000];
+                w.fill_bytes(&mut b);
+            }
+            1 => {
+                let mut img = p.bytes(259 * 8);
+                let c = u64::MAX - p.below(3);
+                img[258 * 8..].copy_from_slice(&c.to_le_bytes());
+                let mut core: rand_isaac::isaac64::Isaac64Core = bincode::deserialize(&img).unwrap();
+                let mut out = <rand_isaac::isaac64::Isaac64Core as BlockRngCore>::Results::default();
+                for _ in 0..5 { core.generate(&mut out); }
+                let mut w = BlockRng64::new(core);
+                for _ in 0..600 { w.next_u32(); }
+                w.next_u64();
+                let mut b = vec![0u8; 3000];
+                w.fill_bytes(&mut b);
+            }
+            2 => {
+                // IsaacRng image: results (256 x u32), index (u64), core (259 x u32)
+                let g0 = rand_isaac::IsaacRng::from_seed(p.bytes(32).try_into().unwrap());
+                let mut img = bincode::serialize(&g0).unwrap();
+                let idx = *p.pick(&[0u64, 1, 255, 256]);
+                img[1024..1032].copy_from_slice(&idx.to_le_bytes());
+                let n = img.len();
+                img[n - 4..].copy_from_slice(&(u32::MAX - p.below(2) as u32).to_le_bytes());
+                if let Ok(mut g) = bincode::deserialize::<rand_isaac::IsaacRng>(&img) {
+                    for _ in 0..700 { g.next_u32(); }
+                    g.next_u64();
+                    let mut b = vec![0u8; 2100];
+                    g.fill_bytes(&mut b);
+                    let _ = format!("{:?}", g.clone());
+                }
+            }
+            _ => {
+                // small generators: arbitrary state images incl. all-zero
+                let img = if p.chance(1, 3) { vec![0u8; 64] } else { p.bytes(64) };
+                macro_rules! go { ($t:ty, $n:expr) => { if let Ok(mut g) = bincode::deserialize::<$t>(&img[..$n]) { g.next_u32(); g.next_u64(); let mut b = [0u8; 37]; g.fill_bytes(&mut b); let _ = g == g.clone(); } } }
+                go!(rand_xoshiro::Xoroshiro64Star, 8);
+                go!(rand_xoshiro::Xoroshiro128PlusPlus, 16);
+                go!(rand_xoshiro::Xoshiro256StarStar, 32);
+                go!(rand_xoshiro::Xoshiro512Plus, 64);
+                go!(rand_xoshiro::SplitMix64, 8);
+                go!(rand_xorshift::XorShiftRng, 16);
+                if let Ok(mut g) = bincode::deserialize::<rand_xoshiro::Xoshiro256PlusPlus>(&img[..32]) { g.jump(); g.long_jump(); }
+                if let Ok(mut g) = bincode::deserialize::<rand_xoshiro::Xoshiro512StarStar>(&img[..64]) { g.jump(); g.long_jump(); }
+            }
+        }
+    });
+    r.eval();
+    match res {
+        Ok(()) => { r.cov(&format!("crafted_state:{}", which)); r.distinct(hkey(&[&"crafted", &id])); }
+        Err(c) => report_panic(&c, "operations_on_deserialized_state", json!({"which": which, "note": "state installed through the crate's serde implementation (counter near wrap / arbitrary words)"}), sub, id, r),
+    }
+}
+
 fn case(sub: &str, id: u64, explicit: Option<&Value>, r: &mut Report) {
     match sub {
+        "crafted" => crafted_case(sub, id, r),
         "real_clock" => real_clock_case(sub, id, r),
         "jitter" => jitter_case(sub, id, explicit, r),
         "jitter_edges" => jitter_edge_case(sub, id, r),
@@ -269,6 +342,7 @@ pub fn run(ctx: &Ctx, only: Option<&Only>) -> Report {
     total.merge(drive(ctx, "jitter", 8_000, secs * 0.4, |id, r| case("jitter", id, None, r)));
     total.merge(drive(ctx, "jitter_edges", 8_000, secs * 0.2, |id, r| case("jitter_edges", id, None, r)));
     total.merge(drive(ctx, "real_clock", 48, 0.0, |id, r| case("real_clock", id, None, r)));
+    total.merge(drive(ctx, "crafted", 2_000, 0.0, |id, r| case("crafted", id, None, r)));
     if ctx.scale >= 1.0 {
         for n in TYPE_NAMES {
             total.floor(&format!("type:{}", n), 50);
